@@ -38,6 +38,9 @@ RULE = ("getB: random ndim 2/3 (and ndim 4 -> ValueError), nshape 1..9, small-in
         "distinct = distinct generating parameter sets (hash of the full case) whose result is not identically zero")
 EXTRA_LEAN_MODULES = ("PymotoVerif.Props.C01Assembly",)   # adjoint theorems of this family (property C01)
 ASSUMPTIONS = [
+    "instance isolation: every module under test is preceded (and, between construction and response, interleaved) by decoy "
+    "modules of the same class differing in one configuration parameter, and by an identically configured decoy whose results "
+    "are scaled in place; a leak from a decoy shows up as a correspondence disagreement / oracle failure of the module under test",
     "1-D domains (nely = 0) are outside the property's quantifier and are not generated; get_B with n_dim = 1 is not modelled",
     "bc indices are non-negative integers (negative indices are rejected by scipy and are not modelled / not generated)",
     "matrix_type is one of scipy.sparse csc_matrix / csr_matrix / coo_matrix; add_constant is None, one of those, or a dense ndarray",
@@ -116,7 +119,7 @@ def _dim(gen):
 
 
 def _ndof(gen):
-    if gen["op"] == "general":
+    if gen["op"] in ("general", "sens"):
         return len(gen["elmat"]) // (2 ** _dim(gen))
     if gen["kind"] == "stiffness":
         return _dim(gen)
@@ -145,7 +148,7 @@ def build_addc(spec, n):
     return MT[spec["fmt"]](M)
 
 
-def make_module(gen, plain=False):
+def _build_module(gen, plain=False):
     """construct the module of a case (plain: without bc / bcdiagval / constant / matrix_type)"""
     pm = _pm()
     dom = _domain(gen)
@@ -176,6 +179,155 @@ def make_module(gen, plain=False):
     return m, dom
 
 
+# ------------------------------------------------------------------------------------------------
+# instance isolation: DECOY modules.  Before the module under test is constructed (and once more between its
+# construction and its response()) modules of the SAME class are constructed and run whose configuration differs
+# from the one under test in exactly ONE parameter that a careless cache key could omit (2-D thickness unitz, another
+# element size, a material constant, plane mode, ndof, bc set, bcdiagval, add_constant, matrix_type, nelx<->nely,
+# element matrix of the same shape with other values), plus one decoy with the IDENTICAL configuration whose
+# element matrix and output are scaled in place afterwards (a cache handing out shared arrays).  Nothing a decoy
+# computed may leak: the module under test must still agree with the model and pass every oracle.
+# The choice of decoys is a deterministic function of the case (hash), so search / replay see the same decoys.
+# ------------------------------------------------------------------------------------------------
+DECOYS = True
+
+
+def _decoy_getD(asm, E, nu, mode):
+    """decoy calls of get_D: identical arguments (result scaled in place afterwards), then one argument changed"""
+    if not DECOYS:
+        return
+    for args in ((E * 2.0 + 0.5, nu, mode), (E, 0.2 if nu != 0.2 else 0.3, mode),
+                 (E, nu, "stress" if "strain" in str(mode).lower() else "strain"), (E, nu, mode)):
+        try:
+            D = asm.get_D(*args)
+            D *= 7.0
+        except Exception:
+            pass
+
+
+def _decoy_getB(asm, arr, voigt):
+    if not DECOYS:
+        return
+    for a, v in ((arr, not voigt), (arr + 1, voigt), (arr, voigt)):
+        try:
+            B = asm.get_B(np.array(a), v)
+            B *= 7
+        except Exception:
+            pass
+
+
+def decoy_variants(gen):
+    """list of (name, gen') ; gen' differs from gen in exactly one configuration parameter"""
+    out = []
+    s = [float(v) for v in gen["s"]]
+    dim = _dim(gen)
+    for a, nm in enumerate(("unitx", "unity", "unitz")):
+        t = list(s)
+        t[a] = s[a] * 2.0 if s[a] <= 1.0 else s[a] * 0.5
+        out.append((nm, dict(gen, s=t)))
+    if gen["nelx"] != gen["nely"]:
+        out.append(("nelx<->nely", dict(gen, nelx=gen["nely"], nely=gen["nelx"])))
+    n = _nsize(gen)
+    op = gen["op"]
+    if op in ("general", "sens"):
+        K = len(gen["elmat"])
+        out.append(("elmat values", dict(gen, elmat=[[v + 1 + ((i + 2 * j) % 3) for j, v in enumerate(r)] for i, r in enumerate(gen["elmat"])])))
+        out.append(("elmat transposed", dict(gen, elmat=[[gen["elmat"][j][i] + (1 if i == j else 0) for j in range(K)] for i in range(K)])))
+    elif gen["kind"] == "stiffness":
+        out.append(("E", dict(gen, E=float(gen["E"]) * 1.5 + 0.25)))
+        nu = float(gen["nu"])
+        out.append(("nu", dict(gen, nu=(0.1 if abs(nu - 0.1) > 0.05 else 0.35))))
+        if dim == 2:
+            p = str(gen.get("plane", "strain")).lower()
+            out.append(("plane", dict(gen, plane=("stress" if "strain" in p else "strain"))))
+    elif gen["kind"] == "mass":
+        out.append(("rho", dict(gen, mat=float(gen["mat"]) * 1.5 + 0.25)))
+        out.append(("ndof", dict(gen, ndof=(int(gen["ndof"]) % 3) + 1)))
+    else:
+        out.append(("k", dict(gen, mat=float(gen["mat"]) * 1.5 + 0.25)))
+    # assembly options
+    bc = gen.get("bc")
+    out.append(("bc", dict(gen, bc=([0] if not bc else [b for b in bc if b != bc[0]] + [(bc[0] + 1) % n]), bc_np=False)))
+    out.append(("bc none<->some", dict(gen, bc=(None if bc is not None else [n - 1]), bc_np=False)))
+    out.append(("bcdiagval", dict(gen, bcdiag=(3 if gen.get("bcdiag", "default") in ("default", None) else None),
+                                  bc=(bc if bc else [0]), bc_np=False)))
+    out.append(("add_constant", dict(gen, addc=(None if gen.get("addc") is not None
+                                                else {"fmt": "csc", "trip": [[0, 0, 2], [n - 1, 0, -1]]}))))
+    out.append(("matrix_type", dict(gen, mtype=("csr" if gen.get("mtype", "default") in ("default", "csc") else "csc"))))
+    return out
+
+
+def _decoy_pick(gen, when, k):
+    """deterministic choice of k variants (the thickness / unitz variant always comes first for the pre-decoys)"""
+    vs = decoy_variants(gen)
+    h = int(hashlib.sha1((when + json.dumps(gen, sort_keys=True, default=str)).encode()).hexdigest(), 16)
+    picked = []
+    if when == "pre":
+        picked.append(next(v for v in vs if v[0] == "unitz"))
+        vs = [v for v in vs if v[0] != "unitz"]
+    while len(picked) < k and vs:
+        picked.append(vs.pop(h % len(vs)))
+        h //= 7
+    return picked
+
+
+def _run_decoy(dgen, plain, scale_after=False):
+    """construct + response of one decoy; whatever it raises is irrelevant for the module under test"""
+    try:
+        g = dict(dgen)
+        if g["op"] == "sens":
+            g.update(op="general", dtype="float")
+        elif g["op"] == "elmat":
+            g.update(op="physical")
+        if g["op"] == "physical" and "x" not in g:
+            g["x"] = [1.0]
+        nel = g["nelx"] * g["nely"] * max(g["nelz"], 1)
+        x = list(g.get("x", [1.0]))
+        g["x"] = (x * nel)[:nel] if len(x) != nel else x
+        m, _ = _build_module(g, plain)
+        m.response()
+        if scale_after:
+            try:
+                m.elmat *= 3.0
+            except Exception:
+                pass
+            A = m.sig_out[0].state
+            if sp.issparse(A):
+                A.data *= 5.0
+    except Exception:
+        pass
+
+
+def run_decoys(gen, when, plain=False):
+    if not DECOYS:
+        return
+    # the differing decoys come FIRST (a cache with an incomplete key is then primed with the wrong entry), the
+    # identically configured one last (it must not repair such a cache before the module under test is built)
+    for _, dgen in _decoy_pick(gen, when, 2 if when == "pre" else 1):
+        _run_decoy(dgen, plain)
+    if when == "pre":
+        _run_decoy(gen, plain, scale_after=True)          # identical configuration, results scaled in place afterwards
+
+
+def decoy_note(gen):
+    """human-readable list of the decoys that ran around the module under test (they are re-created on replay)"""
+    if not DECOYS or not isinstance(gen, dict) or gen.get("op") not in ("general", "physical", "elmat", "sens"):
+        return ""
+    try:
+        g = dict(gen, x=[1.0]) if gen.get("op") == "elmat" else gen
+        pre = [n for n, _ in _decoy_pick(g, "pre", 2)]
+        post = [n for n, _ in _decoy_pick(g, "post", 1)]
+        return f" [decoy modules of the same class ran first: differing in {pre}, then identical; before response(): {post}]"
+    except Exception:
+        return ""
+
+
+def make_module(gen, plain=False):
+    """module under test, constructed after its decoys (see above)"""
+    run_decoys(gen, "pre", plain)
+    return _build_module(gen, plain)
+
+
 def dense_of(A):
     if sp.issparse(A):
         return np.asarray(A.todense())
@@ -184,6 +336,7 @@ def dense_of(A):
 
 def run_case(gen, plain=False):
     m, dom = make_module(gen, plain)
+    run_decoys(gen, "post", plain)      # a decoy between construction and response() of the module under test
     m.response()
     A = m.sig_out[0].state
     return A, m, dom
@@ -192,6 +345,7 @@ def run_case(gen, plain=False):
 def impl_elmat(gen):
     """element matrix of the module built on a 1 x 1 (x 1) domain"""
     m, dom = make_module(dict(gen, x=[1.0]), plain=True)
+    run_decoys(dict(gen, x=[1.0]), "post", True)
     return np.array(m.elmat, dtype=float), m
 
 
@@ -766,6 +920,7 @@ def stream_getB(ctx, batch):
         voigt = rng.random() < 0.5
         arr = np.array(dN, dtype=float if (dyadic or rng.random() < 0.5) else int)
         gen = {"op": "getB", "dN": dN, "voigt": voigt}
+        _decoy_getB(asm, arr, voigt)
         r = call_impl(asm.get_B, arr, voigt)
         req = {"m": "c08.getB", "dN": qlist(dN), "voigt": voigt}
         ctx.branch(f"getB.ndim{ndim}" + ("" if ndim == 4 else (".voigt" if voigt else ".standard")))
@@ -815,6 +970,7 @@ def stream_getD(ctx, batch):
     first = [True]
     for E, nu, mode, exact in cases:
         gen = {"op": "getD", "E": E, "nu": nu, "mode": mode, "exact": exact}
+        _decoy_getD(asm, float(E), float(nu), mode)
         r = call_impl(asm.get_D, float(E), float(nu), mode)
         req = {"m": "c08.getD", "E": q(float(E)), "nu": q(float(nu)), "mode": mode}
         ml = mode.lower()
@@ -841,7 +997,7 @@ def stream_getD(ctx, batch):
                 ok = ctx.compare_close("getD", case, D.tolist(), M, rtol=1e-12, atol=1e-15, scale=sc, key=_key("getD", gen))
             if ok:
                 for why in oracle_case(gen):
-                    ctx.oracle_fail(why, gen)
+                    ctx.oracle_fail(why + decoy_note(gen), gen)
             if first[0]:
                 first[0] = False
                 ctx.sample({"stream": "getD", "E": gen["E"], "nu": gen["nu"], "mode": gen["mode"], "D": D.tolist()})
@@ -878,7 +1034,7 @@ def stream_elmat(ctx, batch):
             rr = call_impl(oracle_definition, gen, r[1][1], _domain(gen))
             why = f"definition oracle raised {rr[2][:300]}" if rr[0] == "err" else rr[1]
             if why:
-                ctx.oracle_fail(why, gen)
+                ctx.oracle_fail(why + decoy_note(gen), gen)
             ctx.branch("oracle.definition")
         req = dict({"m": "c08.elmat"}, **elmat_fields(gen))
         ctx.branch(f"elmat.{gen['kind']}.{_dim(gen)}d" + (".err" if r[0] == "err" else ""))
@@ -969,10 +1125,10 @@ def add_assembled(ctx, batch, stream, gen, run_property_oracles):
         A, m, dom = r[1]
         why = oracle_reassembly(gen, A, m, dom, exact)
         if why:
-            ctx.oracle_fail(why, gen)
+            ctx.oracle_fail(why + decoy_note(gen), gen)
         if run_property_oracles:
             for why in property_oracles(gen):
-                ctx.oracle_fail(why, gen)
+                ctx.oracle_fail(why + decoy_note(gen), gen)
     req, want_dense, cost = assemble_request(gen)
 
     def cb(ans, r=r, gen=gen, want_dense=want_dense, exact=exact):
@@ -1195,7 +1351,9 @@ def _sens_module(gen, Ke, x):
         kw["add_constant"] = build_addc(gen["addc"], _nsize_sens(gen))
     if gen.get("mtype", "default") != "default":
         kw["matrix_type"] = MT[gen["mtype"]]
+    run_decoys(gen, "pre")
     m = pm.AssembleGeneral(sx, domain=dom, element_matrix=Ke, **kw)
+    run_decoys(gen, "post")
     m.response()
     return m, sx, dom
 
@@ -1286,7 +1444,7 @@ def stream_sens(ctx):
         out = r[1]
         why = oracle_sens(gen, out)
         if why:
-            ctx.oracle_fail(why, gen)
+            ctx.oracle_fail(why + decoy_note(gen), gen)
         cplx = gen["mode"] != "real"
         Ke, _, _ = _sens_arrays(gen)
         req = {"m": "c08.sens", "nelx": gen["nelx"], "nely": gen["nely"], "nelz": gen["nelz"], "elmat": _enc(Ke, cplx),
@@ -1384,7 +1542,7 @@ def search(ctx, disagreements):
         r = call_impl(oracle_case, gen)
         whys = [f"oracle raised {r[2][:300]}"] if r[0] == "err" else r[1]
         for why in whys[:1]:
-            found.append({"what": why, "witness": gen})
+            found.append({"what": why + decoy_note(gen), "witness": gen})
     for d in disagreements:
         gen = (d.get("case") or {}).get("gen") if isinstance(d.get("case"), dict) else None
         if isinstance(gen, dict) and gen.get("why") is None:   # malformed cases have no property to check
